@@ -163,14 +163,12 @@ def _worker_init():
     global _scratch
     signal.signal(signal.SIGINT, signal.SIG_IGN)
     try:
-        resource.setrlimit(resource.RLIMIT_AS, (MEM_LIMIT, MEM_LIMIT))
+        hard = resource.getrlimit(resource.RLIMIT_AS)[1]
+        resource.setrlimit(resource.RLIMIT_AS, (MEM_LIMIT, hard))  # soft only: sanitizer subprocesses lift it again
     except Exception:
         pass
     _scratch = tempfile.mkdtemp(prefix="xoverif-w-")
     os.chdir(_scratch)
-    import atexit
-
-    atexit.register(shutil.rmtree, _scratch, True)
     quiet()
 
 
@@ -206,6 +204,19 @@ class Watchdog:
         return False
 
 
+_crumb_path = None
+
+
+def breadcrumb(text):
+    """remember what the worker is about to do (read by the parent if the worker dies in native code)"""
+    if _crumb_path:
+        try:
+            with open(_crumb_path, "w") as f:
+                f.write(text)
+        except OSError:
+            pass
+
+
 def _run_one(args):
     modname, shard, tier, seed = args
     mod = __import__("xoverif." + modname, fromlist=["x"])
@@ -213,32 +224,91 @@ def _run_one(args):
         r = mod.run_shard(shard, tier, seed)
     except BaseException as e:  # harness error: never a VIOLATION
         r = ShardResult()
-        r.notes.append("HARNESS-ERROR in shard %r: %s" % (shard, "".join(traceback.format_exception(e))[-3000:]))
+        r.notes.append("HARNESS-ERROR in shard %r: %s" % (str(shard)[:300], "".join(traceback.format_exception(e))[-3000:]))
     return r
 
 
+def _child(conn, crumb, args):
+    global _crumb_path
+    _crumb_path = crumb
+    _worker_init()
+    try:
+        r = _run_one(args)
+        conn.send(r)
+    finally:
+        conn.close()
+        if _scratch:
+            shutil.rmtree(_scratch, ignore_errors=True)
+        os._exit(0)
+
+
+SHARD_TIMEOUT = int(os.environ.get("XOVERIF_SHARD_TIMEOUT", "3600"))
+
+
 def run_check(modname, tier, seed, workers=None):
-    """Run a check module, triage, write evidence, print lines, return exit code."""
+    """Run a check module: one forked child per shard (a child dying in native code cannot hang or take down the run),
+    triage, write evidence, print lines, return exit code."""
+    from multiprocessing.connection import wait as mpwait
+
     mod = __import__("xoverif." + modname, fromlist=["x"])
-    pid = mod.PID
     t0 = time.time()
+    quiet()  # imports xobjects once in the parent: forked children inherit the warm modules
     shards = mod.shards(tier, seed)
     total = ShardResult()
     workers = workers or NWORKERS
-    args = [(modname, s, tier, seed) for s in shards]
-    if workers <= 1 or len(shards) <= 1:
-        cwd = os.getcwd()
-        _worker_init()
-        try:
-            for a in args:
-                total.merge(_run_one(a))
-        finally:
-            os.chdir(cwd)
-    else:
-        ctx = multiprocessing.get_context("fork")
-        with ctx.Pool(min(workers, len(shards)), initializer=_worker_init) as pool:
-            for r in pool.imap_unordered(_run_one, args, chunksize=1):
-                total.merge(r)
+    ctx = multiprocessing.get_context("fork")
+    crumbdir = tempfile.mkdtemp(prefix="xoverif-crumbs-")
+    pending = list(enumerate(shards))
+    pending.reverse()
+    running = {}  # sentinel -> (proc, conn, idx, shard, crumb, started)
+    try:
+        while pending or running:
+            while pending and len(running) < workers:
+                idx, shard = pending.pop()
+                rconn, wconn = ctx.Pipe(duplex=False)
+                crumb = os.path.join(crumbdir, "c%d" % idx)
+                p = ctx.Process(target=_child, args=(wconn, crumb, (modname, shard, tier, seed)))
+                p.start()
+                wconn.close()
+                running[p.sentinel] = (p, rconn, idx, shard, crumb, time.time())
+            ready = mpwait([v[1] for v in running.values()] + list(running.keys()), timeout=5)
+            now = time.time()
+            for sent, (p, rconn, idx, shard, crumb, started) in list(running.items()):
+                got = None
+                if rconn in ready or sent in ready or not p.is_alive():
+                    try:
+                        if rconn.poll(0.2 if p.is_alive() else 0):
+                            got = rconn.recv()
+                    except (EOFError, OSError):
+                        got = None
+                    if got is None and p.is_alive() and sent not in ready:
+                        continue
+                    p.join(10)
+                    if got is None:
+                        crumbtxt = ""
+                        try:
+                            crumbtxt = open(crumb).read()
+                        except OSError:
+                            pass
+                        got = ShardResult()
+                        if hasattr(mod, "on_crash"):
+                            mod.on_crash(got, shard, p.exitcode, crumbtxt)
+                        else:
+                            got.notes.append("HARNESS-ERROR: worker for shard %s died with exit code %r (%s)" % (str(shard)[:200], p.exitcode, crumbtxt[:300]))
+                    total.merge(got)
+                    rconn.close()
+                    del running[sent]
+                elif now - started > SHARD_TIMEOUT:
+                    p.kill()
+                    p.join(10)
+                    total.capped = True
+                    total.notes.append("HARNESS-TIMEOUT: shard %s stopped after %d s" % (str(shard)[:200], SHARD_TIMEOUT))
+                    rconn.close()
+                    del running[sent]
+    finally:
+        for p, rconn, *_ in running.values():
+            p.kill()
+        shutil.rmtree(crumbdir, ignore_errors=True)
     if hasattr(mod, "post"):
         mod.post(total, tier, seed)
     return finish(mod, total, tier, seed, time.time() - t0)
